@@ -150,7 +150,7 @@ def generate_code_np(circ, num_logical_dim):
 class _KnillLaflammeInnerProductTorchOp(torch.autograd.Function):
     @staticmethod
     def forward(ctx, q0_torch, op_list):
-        q0 = q0_torch.detach().numpy()
+        q0 = q0_torch.detach().resolve_conj().numpy()
         num_logical_dim = q0.shape[0]
         num_logical_qubit = numqi.utils.hf_num_state_to_num_qubit(num_logical_dim, kind='exact')
         ret = []
@@ -169,7 +169,7 @@ class _KnillLaflammeInnerProductTorchOp(torch.autograd.Function):
     @torch.autograd.function.once_differentiable
     def backward(ctx, grad_output):
         q0 = ctx.saved_tensors[0].detach().numpy()
-        grad_output = grad_output.detach().numpy()
+        grad_output = grad_output.detach().resolve_conj().numpy() #the cotangent may carry the conjugate bit
         op_list = ctx._pyqet_data['op_list']
         num_logical_dim = q0.shape[0]
         num_logical_qubit = numqi.utils.hf_num_state_to_num_qubit(num_logical_dim, kind='exact')
